@@ -65,8 +65,8 @@ def solve_knapsack(
     # Convert to integer capacity for DP (scale if needed)
     int_capacity, scale = _to_int_capacity(capacity, weights)
 
-    if int_capacity == 0:
-        # No capacity, can't take anything
+    if int_capacity == 0 and not any(w == 0 for w in weights):
+        # No capacity and no weightless item: can't take anything
         return Result((), 0.0, 0, n, Status.OPTIMAL)
 
     # Scale weights
